@@ -279,15 +279,23 @@ def share_or_copy(fb, rep):
         rep.anchor_lost(R, "Thread::can_share_values_with")
         return
     T = "gluon_vm::thread::Thread"
-    reads_parent = any(("field", T, "parent") in flow.sources(cs, rv[1] if rv[0] in ("disc", "rawptr") else (rv[2] if rv[0] == "ref" else [0, []]))
-                       for i, j, pl, rv, ln in cs.assigns() if rv[0] in ("disc", "ref", "rawptr"))
+    group = [cs] + [x for i_, x in fb.bodies.items() if i_.startswith(cs.id + "::") and "{closure" not in i_]
+
+    def _reads_parent(x):
+        return any(("field", T, "parent") in flow.sources(x, rv[1] if rv[0] in ("disc", "rawptr") else (rv[2] if rv[0] == "ref" else [0, []]))
+                   for i, j, pl, rv, ln in x.assigns() if rv[0] in ("disc", "ref", "rawptr"))
+    reads_parent = any(_reads_parent(x) for x in group)
     reads_gs = any(("field", T, "global_state") in flow.sources(cs, c.args[0]) for c in cs.calls() if c.args)
-    loops = cs.sccs()
+    loops = any(x.sccs() for x in group)
     consts = set()
     for i, j, pl, rv, ln in cs.assigns():
         if pl == [0, []] and rv[0] == "use" and rv[1][0] == "k" and "int" in rv[1][1]:
             consts.add(rv[1][1]["int"])
-    if reads_parent and reads_gs and loops and consts == {0, 1}:
+    # no blocking lock may be taken on the *other* thread inside the decision (it runs with our own context held)
+    locks_other = [c for x in group for c in x.calls() if c.res.endswith("Mutex::<T>::lock") and ("field", T, "context") in flow.sources(x, c.args[0])]
+    if locks_other:
+        rep.violation(R, "share-decision-locks-other-context", "can_share_values_with locks another thread's context while the caller holds its own (two threads pushing each other's values deadlock)", locks_other[0].where())
+    if reads_parent and reads_gs and loops and consts >= {0, 1}:
         rep.ok(R, "can_share_values_with: compares global states, walks Thread.parent, returns both true and false")
     else:
         rep.violation(R, "share-decision-degenerate", "can_share_values_with lost the global-state comparison / parent walk / one of its results (parent=%s gs=%s loop=%s results=%s)" % (
